@@ -1068,12 +1068,20 @@ func ruleC11CaseCoverage2(c *Ctx, rule string) {
 			fmt.Sprintf("the equality function lets %s decide for operand kinds %s: Go equality compares pointers by address, 1 and 1.0 (or json.Number 10 and 1e1) as different, and looks at unexported fields - values that are equal as JSON come out unequal", key, ks))
 	}
 	// recursion on elements: lengths first, missing keys tested
-	n, nElems, nMembers := 0, 0, 0
+	n, nElems, nMembers, nRec := 0, 0, 0, 0
 	for _, fi := range c.familyInstrs(eq) {
 		fi := fi
 		call, ok := fi.I.(*ssa.Call)
 		if !ok || call.Call.StaticCallee() != eq {
 			continue
+		}
+		// whatever is compared, one side comes out of x and the other out of y
+		nRec++
+		sideA, sideB := containerSide(call.Call.Args[0], sx, sy, 8), containerSide(call.Call.Args[1], sx, sy, 8)
+		if sideA != 0 && sideA == sideB && (sideA == 1 || sideA == 2) {
+			c.R.Bad(rule, fmt.Sprintf("recursion#%d:x-against-y", nRec), c.pos(call), "the equality function compares two parts of the same operand with each other (both arguments of the recursive call are taken out of "+map[int]string{1: "the first", 2: "the second"}[sideA]+" operand): the other operand's part is never looked at, so values that differ there compare equal")
+		} else if sideA != 0 && sideB != 0 {
+			c.R.OK(rule, fmt.Sprintf("recursion#%d:x-against-y", nRec), c.pos(call), "a part of one operand is compared with a part of the other")
 		}
 		// (an argument can also be the value handed to the body of a range-over-func loop: not a call)
 		a, _ := call.Call.Args[0].(*ssa.Call)
@@ -1319,6 +1327,7 @@ func ruleC12DecidedByEqual(c *Ctx) {
 		}
 		nFail++
 		byEq := false
+		var selfCompared []string
 		for _, g := range guardsOf(ret) {
 			if gc, ok := g.Cond.(*ssa.Call); ok && g.Pol && gc.Call.StaticCallee() == eq {
 				a, b := gc.Call.Args[0], gc.Call.Args[1]
@@ -1328,8 +1337,19 @@ func ruleC12DecidedByEqual(c *Ctx) {
 					byEq = true
 				}
 				_ = ib
+				// two different items: the positions are not one and the same variable
+				for _, pa := range indexPositions(a) {
+					for _, pb := range indexPositions(b) {
+						if pa == pb {
+							if _, isConst := pa.(*ssa.Const); !isConst {
+								selfCompared = append(selfCompared, c.pos(gc))
+							}
+						}
+					}
+				}
 			}
 		}
+		c.R.Check(len(selfCompared) == 0, rule, "uniqueItems:two-different-items", c.pos(ret), "the equality function is given two different positions of the array", fmt.Sprintf("the equality call that decides uniqueItems (at %v) is given the same position of the array twice: an item is compared with itself, so every two items whose hashes collide are reported as duplicates", selfCompared))
 		c.R.Check(byEq, rule, "uniqueItems:failure-guarded-by-equality", c.pos(ret), "uniqueItems fails only when the equality function says two items are equal", "uniqueItems can fail (or its verdict is taken) without the equality function having compared the two items: equal hashes of unequal items would be reported as duplicates")
 	})
 	c.R.Floor(rule, "failure exits of uniqueItems", nFail, 1)
@@ -1351,16 +1371,79 @@ func ruleC12DecidedByEqual(c *Ctx) {
 		return
 	}
 	// from the body entry every path back to the header passes through the recording
-	var bodyEntry *ssa.BasicBlock
+	// (a loop over an integer range is rotated: its header is the first block of the body and may branch itself, so
+	// every successor inside the loop is a way into the rest of the body)
+	var bodyEntries []*ssa.BasicBlock
 	for _, s := range header.Succs {
 		if header.Dominates(s) && core.Reachable(s, header, nil) {
-			bodyEntry = s
+			bodyEntries = append(bodyEntries, s)
 		}
 	}
-	if bodyEntry != nil {
-		ok := mustPass(bodyEntry, map[*ssa.BasicBlock]bool{bucketUpdate.Block(): true}, map[*ssa.BasicBlock]bool{header: true})
+	if len(bodyEntries) > 0 {
+		ok := true
+		for _, be := range bodyEntries {
+			if bucketUpdate.Block() != header && !mustPass(be, map[*ssa.BasicBlock]bool{bucketUpdate.Block(): true}, map[*ssa.BasicBlock]bool{header: true}) {
+				ok = false
+			}
+		}
 		c.R.Check(ok, rule, "uniqueItems:every-item-recorded", c.pos(bucketUpdate), "every item that is not a duplicate is recorded in its bucket before the next item is examined", "an item can be skipped by the bucket recording (a path through the loop body avoids it): a later duplicate of that item is not detected")
 	}
+}
+
+// containerSide: which operand (1: in sx, 2: in sy, 3: both) the container a value was taken out of belongs to,
+// following receivers of reflect accessors, iterators, cells and phis. 0 when unknown.
+func containerSide(v ssa.Value, sx, sy map[ssa.Value]bool, depth int) int {
+	if v == nil || depth == 0 {
+		return 0
+	}
+	if sx[v] {
+		return 1
+	}
+	if sy[v] {
+		return 2
+	}
+	switch x := v.(type) {
+	case *ssa.Call:
+		key := core.CalleeKey(&x.Call)
+		switch key {
+		case "reflect.Value.Index", "reflect.Value.MapIndex", "reflect.Value.Field", "reflect.Value.FieldByIndex", "reflect.Value.FieldByName", "reflect.Value.Elem", "reflect.MapIter.Value", "reflect.MapIter.Key", "reflect.Value.MapRange", "reflect.Indirect":
+			return containerSide(x.Call.Args[0], sx, sy, depth-1)
+		}
+	case *ssa.Parameter:
+		if mv := reflectSeqOf(x); mv != nil {
+			return containerSide(mv, sx, sy, depth-1)
+		}
+	case *ssa.Phi:
+		r := 0
+		for _, e := range x.Edges {
+			r |= containerSide(e, sx, sy, depth-1)
+		}
+		return r
+	case *ssa.UnOp:
+		if x.Op == token.MUL {
+			if cell := resolveCell(x.X); cell != nil {
+				r := 0
+				for _, sv := range cellStores(cell) {
+					r |= containerSide(sv, sx, sy, depth-1)
+				}
+				return r
+			}
+		}
+	case *ssa.Extract:
+		return containerSide(x.Tuple, sx, sy, depth-1)
+	}
+	return 0
+}
+
+// indexPositions: the index arguments of the reflect.Value.Index calls v comes from.
+func indexPositions(v ssa.Value) []ssa.Value {
+	var out []ssa.Value
+	for _, s := range append(traceSources(v), v) {
+		if call, ok := s.(*ssa.Call); ok && core.CalleeKey(&call.Call) == "reflect.Value.Index" && len(call.Call.Args) == 2 {
+			out = append(out, call.Call.Args[1])
+		}
+	}
+	return out
 }
 
 func isIndexDerived(v ssa.Value) bool {
